@@ -135,7 +135,12 @@ type FuncReport struct {
 
 func (pk *PkgCtx) verifyFunc(key string, con *FuncContract) *FuncReport {
 	rep := &FuncReport{Key: key, Prop: con.Prop, Trusted: con.Trusted}
-	fn := pk.funcs[key]
+	// several region contracts may be attached to one function: KEY@region:NAME
+	fnKey := key
+	if i := strings.Index(key, "@region:"); i >= 0 {
+		fnKey = key[:i]
+	}
+	fn := pk.funcs[fnKey]
 	if fn == nil {
 		rep.Aborted = "drift: function not found in package " + pk.path
 		o := &Obligation{Name: key + "/drift", Func: key, Kind: "drift", Prop: con.Prop, Text: "function under contract exists", Where: con.Line}
